@@ -50,70 +50,97 @@ def signature(v):
     return (v.get("clause"), v.get("site"))
 
 
+CHUNK_SIZE = {"C05": 20, "C06": 20, "C19": 400, "C20": 250}
+
+
 def _chunk(args):
-    prop, seed, tier, indices, want_samples = args
+    prop, seed, tier, indices, want_samples, want_eds = args
     faulthandler.enable()
     faulthandler.dump_traceback_later(CHUNK_WALL_LIMIT, exit=True)
     try:
-        rows = []
+        import array
         counters = {}
         viols = []
         known = {}
         samples = []
         extra = {}
+        eds = {}
+        tds = array.array("Q")
+        h = hashlib.sha256()
+        n = n_nt = n_ff = steps = 0
+        eng = engine_for(prop)
         for i in indices:
             tr = make_trace(prop, seed, i, tier)
             res = run_trace(prop, tr)
             td = core.digest({k: tr[k] for k in tr if k not in ("verif_seed", "run_index")})
-            ed = core.digest(res["events"])
-            rows.append((i, int(td[:15], 16), ed[:16], bool(res["nontrivial"]),
-                         bool(res.get("fault_free", False)), int(res.get("steps", 0))))
+            ed = core.digest(res["events"])[:16]
+            h.update(("%d:%s;" % (i, ed)).encode())
+            n += 1
+            if res["nontrivial"]:
+                n_nt += 1
+                tds.append(int(td[:15], 16))
+            if res.get("fault_free", False):
+                n_ff += 1
+            steps += int(res.get("steps", 0))
+            if i in want_eds:
+                eds[i] = ed
             for k, v in res["counters"].items():
                 counters[k] = counters.get(k, 0) + v
             for k in res.get("known", []):
                 known[k] = known.get(k, 0) + 1
-            if res["violation"] is not None:
+            if res["violation"] is not None and len(viols) < 20:
                 viols.append((i, res["violation"], tr))
             if i in want_samples:
-                eng = engine_for(prop)
                 samples.append({"run_index": i, "trace": eng.sample_view(tr),
-                                "events_digest": ed[:16], "violation": res["violation"]})
+                                "events_digest": ed, "violation": res["violation"]})
             for k, v in res.get("sets", {}).items():
                 extra.setdefault(k, set()).update(v)
-        return {"rows": rows, "counters": counters, "viols": viols, "known": known,
-                "samples": samples, "sets": {k: sorted(v) for k, v in extra.items()}}
+        return {"first": indices[0], "n": n, "n_nt": n_nt, "n_ff": n_ff, "steps": steps, "tds": tds.tobytes(),
+                "digest": h.hexdigest(), "eds": eds, "counters": counters, "viols": viols, "known": known,
+                "samples": samples, "sets": {k: sorted(v) for k, v in extra.items()},
+                "n_viol": sum(1 for _ in viols)}
     finally:
         faulthandler.cancel_dump_traceback_later()
 
 
-def run_many(prop, seed, tier, indices, workers):
-    """-> merged result; order-independent of the worker count."""
+def run_many(prop, seed, tier, indices, workers, want_eds=None):
+    """-> merged result; independent of the worker count (fixed chunk boundaries, merged in index order)."""
+    import array
     indices = list(indices)
     want = set(indices[:3])
-    nchunks = max(1, min(len(indices), workers * 8))
-    size = (len(indices) + nchunks - 1) // nchunks
+    want_eds = set(indices) if want_eds is None and len(indices) <= 200 else set(want_eds or [])
+    size = CHUNK_SIZE.get(prop, 100)
     chunks = [indices[i:i + size] for i in range(0, len(indices), size)]
     outs = []
     if workers <= 1:
         for c in chunks:
-            outs.append(_chunk((prop, seed, tier, c, want)))
+            outs.append(_chunk((prop, seed, tier, c, want, want_eds)))
     else:
         ctx = multiprocessing.get_context("fork")
         with ProcessPoolExecutor(max_workers=workers, mp_context=ctx) as ex:
-            futs = [ex.submit(_chunk, (prop, seed, tier, c, want)) for c in chunks]
+            futs = [ex.submit(_chunk, (prop, seed, tier, c, want, want_eds)) for c in chunks]
             for f in futs:
                 try:
                     outs.append(f.result(timeout=CHUNK_WALL_LIMIT + 60))
                 except BrokenProcessPool:
                     raise core.HarnessError("worker process died (watchdog or crash)")
-    rows = []
     counters = {}
     viols = []
     known = {}
     samples = []
     sets = {}
-    for o in outs:
-        rows.extend(o["rows"])
+    eds = {}
+    tds = array.array("Q")
+    h = hashlib.sha256()
+    n = n_nt = n_ff = steps = 0
+    for o in outs:          # submission order == index order
+        n += o["n"]
+        n_nt += o["n_nt"]
+        n_ff += o["n_ff"]
+        steps += o["steps"]
+        tds.frombytes(o["tds"])
+        h.update(o["digest"].encode())
+        eds.update(o["eds"])
         for k, v in o["counters"].items():
             counters[k] = counters.get(k, 0) + v
         for k, v in o["known"].items():
@@ -122,15 +149,13 @@ def run_many(prop, seed, tier, indices, workers):
         samples.extend(o["samples"])
         for k, v in o["sets"].items():
             sets.setdefault(k, set()).update(v)
-    rows.sort()
     viols.sort(key=lambda x: x[0])
     samples.sort(key=lambda s: s["run_index"])
-    h = hashlib.sha256()
-    for r in rows:
-        h.update(("%d:%s;" % (r[0], r[2])).encode())
-    return {"rows": rows, "counters": dict(sorted(counters.items())), "viols": viols,
+    return {"n": n, "n_nontrivial": n_nt, "distinct_nontrivial": len(set(tds)), "n_ff": n_ff, "steps": steps,
+            "eds": eds, "counters": dict(sorted(counters.items())), "viols": viols,
             "known": dict(sorted(known.items())), "samples": samples, "batch_digest": h.hexdigest(),
-            "sets": {k: sorted(v) for k, v in sorted(sets.items())}}
+            "sets": {k: sorted(v) for k, v in sorted(sets.items())},
+            "index_range": [indices[0], indices[-1]] if indices else []}
 
 
 # ----------------------------------------------------------------------------- shrinking / replay
@@ -204,12 +229,13 @@ def check(prop, tier, runs=None, workers=None, start=0, evidence=True):
     sys.stdout.flush()
     pre = eng.precheck(prop, seed, tier) if hasattr(eng, "precheck") else {"lines": [], "viols": [], "info": {}}
     indices = eng.indices(prop, tier, runs, start) if hasattr(eng, "indices") else range(start, start + runs)
-    merged = run_many(prop, seed, tier, indices, workers)
+    indices = list(indices)
+    sample_idx = indices[:: max(1, len(indices) // 24)][:24]
+    merged = run_many(prop, seed, tier, indices, workers, want_eds=sample_idx)
     # determinism self-test on a small sample, every run: same index twice in this process
-    sample_idx = [r[0] for r in merged["rows"][:: max(1, len(merged["rows"]) // 24)]][:24]
     again = run_many(prop, seed, tier, sample_idx, 1)
-    first = {r[0]: r[2] for r in merged["rows"]}
-    nondet = [r[0] for r in again["rows"] if first[r[0]] != r[2]]
+    first = merged["eds"]
+    nondet = [i for i in sample_idx if again["eds"].get(i) != first.get(i)]
     if nondet:
         raise core.HarnessError("non-deterministic replay of run indices %s" % nondet[:5])
     # ... and once more in a fresh interpreter under another hash seed
@@ -222,7 +248,7 @@ def check(prop, tier, runs=None, workers=None, start=0, evidence=True):
         fresh = json.loads(pr.stdout.decode().strip().splitlines()[-1])
     except Exception:
         raise core.HarnessError("fresh-interpreter determinism probe failed: %s" % pr.stderr.decode()[-500:])
-    nondet = [i for i in sample_idx if fresh.get(str(i)) != first[i]]
+    nondet = [i for i in sample_idx if fresh.get(str(i)) != first.get(i)]
     if nondet:
         raise core.HarnessError("non-deterministic across interpreters: run indices %s" % nondet[:5])
     viol_lines = []
@@ -257,28 +283,29 @@ def check(prop, tier, runs=None, workers=None, start=0, evidence=True):
                 if f["id"] == fid:
                     print("KNOWN-FINDING: property=%s %s %s" % (prop, f["id"], f["what"]))
     wall = time.time() - t0
-    rows = merged["rows"]
-    distinct_nt = len(set(r[1] for r in rows if r[3]))
-    n_ff = sum(1 for r in rows if r[4])
-    steps = sum(r[5] for r in rows)
+    nrun = merged["n"]
+    distinct_nt = merged["distinct_nontrivial"]
+    n_ff = merged["n_ff"]
+    steps = merged["steps"]
     cov = {
-        "evaluations": len(rows),
+        "evaluations": nrun,
         "distinct_nontrivial": distinct_nt,
         "rule": eng.RULE,
         "samples": merged["samples"][:3],
         "exhaustive": False,
-        "runs_per_hour": int(len(rows) / wall * 3600) if wall > 0 else 0,
-        "seeds_per_hour": int(len(rows) / wall * 3600) if wall > 0 else 0,
+        "runs_per_hour": int(nrun / wall * 3600) if wall > 0 else 0,
+        "seeds_per_hour": int(nrun / wall * 3600) if wall > 0 else 0,
         "simulated_time": {"unit": "logical steps (xfab reads no clock; the step counter is the only time axis)",
                            "steps": steps},
         "fault_free_runs": n_ff,
-        "fault_injecting_runs": len(rows) - n_ff,
+        "fault_injecting_runs": nrun - n_ff,
+        "nontrivial_runs": merged["n_nontrivial"],
         "counters": merged["counters"],
         "known_findings_hit": merged["known"],
         "batch_digest": merged["batch_digest"],
         "determinism_sample": {"indices_rerun_same_process": len(sample_idx), "indices_rerun_fresh_interpreter_other_hashseed": len(sample_idx), "mismatches": 0},
         "workers": workers,
-        "run_index_range": [rows[0][0], rows[-1][0]] if rows else [],
+        "run_index_range": merged["index_range"],
         "xfab_file": os.path.join(os.path.realpath(core.xfab_src()), "xfab", "__init__.py"),
         "violating_runs": len(merged["viols"]),
         "replays": replay_paths,
@@ -298,7 +325,7 @@ def check(prop, tier, runs=None, workers=None, start=0, evidence=True):
         with open(p, "w") as f:
             json.dump(ev, f, indent=1, sort_keys=True)
     print("runs=%d distinct_nontrivial=%d fault_free=%d steps=%d wall=%.1fs batch_digest=%s" % (
-        len(rows), distinct_nt, n_ff, steps, wall, merged["batch_digest"][:16]))
+        nrun, distinct_nt, n_ff, steps, wall, merged["batch_digest"][:16]))
     for ln in viol_lines:
         print(ln)
     sys.stdout.flush()
@@ -314,8 +341,8 @@ def main(argv):
         if argv and argv[0] == "_digests":
             core.import_xfab()
             prop, tier, idx = argv[1], argv[2], [int(x) for x in argv[3].split(",") if x]
-            r = run_many(prop, core.verif_seed(), tier, idx, 1)
-            print(json.dumps({str(x[0]): x[2] for x in r["rows"]}))
+            r = run_many(prop, core.verif_seed(), tier, idx, 1, want_eds=idx)
+            print(json.dumps({str(k): v for k, v in r["eds"].items()}))
             return 0
         if argv and argv[0] == "selftest":
             from . import selftest
